@@ -50,8 +50,14 @@ func (s *Session) SendMsg(msg protobuf_go_lite.Message) error {
 	s.sendMtx.Lock()
 	defer s.sendMtx.Unlock()
 
-	if _, err := s.Write(pktBuf); err != nil {
+	n, err := s.Write(pktBuf)
+	if err != nil {
 		return err
+	}
+	if n < len(pktBuf) {
+		// a short write would leave a truncated frame on the wire and
+		// misframe every message after it.
+		return io.ErrShortWrite
 	}
 	return nil
 }
